@@ -35,6 +35,8 @@ ASSUMPTIONS = [
     'trip',
 ]
 CONFIG = {
+    'extra_variants': [('rdkit-new-stereo-perception',
+                        [{'RDK_USE_LEGACY_STEREO_PERCEPTION': '0'}])],
     'shards': {'quick': 16, 'thorough': 16},
     'min_nontrivial': {'quick': 1500, 'thorough': 6000},
     'timeout': {'quick': 1200, 'thorough': 14400},
